@@ -425,13 +425,24 @@ func lemmaDigitsShape(w []byte, v uint64) {}
 
 func lemmaScalarText(t []byte, s Size, plain bool) {
 	lemmaTextShape(t, s, plain)
-	number, _ := prepareNumber(string(t))
+	number, unit := prepareNumber(string(t))
+	lemmaUnitMult([]byte(unit), s, plain)
 	v := uint64(s)
 	if !plain {
 		v, _ = s.Shorten()
 	}
-	internal.LemmaParseFormat([]byte(number), v)
+	internal.LemmaParseFormatS(number, v)
 }
+
+// the multiplier of the unit a size is shortened to
+//@ func lemmaUnitMult
+//@   lemma
+//@   requires u == tUnit(s, plain)
+//@   ensures [C04.text] (plain ==> len(u) == 0) && (!plain ==> len(u) >= 1 && unitKnown(u) && unitMult(u) == pow1024(shExp(uint64(s))))
+//@   ensures [C04.text] !plain ==> (shExp(uint64(s)) == 0 ==> u == "B") && (shExp(uint64(s)) == 1 ==> u == "KiB") && (shExp(uint64(s)) == 2 ==> u == "MiB") && (shExp(uint64(s)) == 3 ==> u == "GiB")
+//@       && (shExp(uint64(s)) == 4 ==> u == "TiB") && (shExp(uint64(s)) == 5 ==> u == "PiB") && (shExp(uint64(s)) == 6 ==> u == "EiB")
+
+func lemmaUnitMult(u []byte, s Size, plain bool) {}
 
 //@ func lemmaTextShape
 //@   lemma
@@ -507,7 +518,7 @@ func lemmaPrettyText(t []byte, s Size) {
 	lemmaPrettyShape(t, s)
 	number, _ := prepareNumber(string(t))
 	v, _ := s.Shorten()
-	internal.LemmaParseFormat([]byte(number), v)
+	internal.LemmaParseFormatS(number, v)
 }
 
 func lemmaC04String(s Size) (got1, got2 Size, err1, err2 error) {
@@ -615,7 +626,7 @@ func lemmaC04JSONNumber(s Size) (got Size, err error) {
 	b := shapeJSONNumber(s)
 	lemmaDigitsShape(b, uint64(s))
 	number, _ := prepareNumber(string(b))
-	internal.LemmaParseFormat([]byte(number), uint64(s))
+	internal.LemmaParseFormatS(number, uint64(s))
 	return lemmaJSONNumberRead(b, s)
 }
 
@@ -728,7 +739,7 @@ func lemmaC08Padded(t []byte, s Size, lead, trail int) (got Size, err error) {
 	lemmaPaddedShape(t, s, lead, trail)
 	number, _ := prepareNumber(string(t))
 	v, _ := s.Shorten()
-	internal.LemmaParseFormat([]byte(number), v)
+	internal.LemmaParseFormatS(number, v)
 	err = got.UnmarshalText(t)
 	return got, err
 }
